@@ -532,6 +532,12 @@ def main():
 
     # ---- fields
     exp = expanded_source()
+    # unrolled limb-level mul_assign / square / mont_reduce of the derive output -> straight-line IR
+    sys.path.insert(0, os.path.dirname(os.path.abspath(__file__)))
+    import extract_mont
+    manifest.extend(extract_mont.emit(exp, GEN, ExtractError))
+    if getattr(extract_mont, "CHANGED", False):
+        changed.append("MontProg")
     dq = derive_consts(exp, "Fq")
     dr = derive_consts(exp, "Fr")
     q = attr_string(FQ, "PrimeFieldModulus")
